@@ -481,3 +481,5 @@ META = {
     'technique': 'ordering-domain tabulation (finite abstract interpretation) of the adoption kernel + index-domain '
                  'template checks + aliasing (copy-before-mutate) rule',
 }
+
+META['explanation'] += ' ' + 'Further: the guesser loads the PCFG files faithfully (record layout, strip discipline, encoding agreement, no line skipped except error recovery); exact-float discipline; mask insertion visits every element.'
